@@ -4,6 +4,7 @@ import (
 	"fmt"
 	"go/types"
 	"os"
+	"runtime/debug"
 	"runtime/pprof"
 	"sort"
 	"strings"
@@ -12,8 +13,65 @@ import (
 	"golang.org/x/tools/go/ssa"
 
 	"jtverif/internal/absint"
+	"jtverif/internal/checks"
 	"jtverif/internal/load"
+	"jtverif/internal/report"
 )
+
+func runCheck(args []string) int {
+	if len(args) < 1 {
+		fmt.Println("usage: jtverif check <Cxx> [--tier quick|thorough]")
+		return 2
+	}
+	id := args[0]
+	tier := os.Getenv("VERIF_TIER")
+	repo, verif := "/repo", "/verif"
+	for i := 1; i < len(args); i++ {
+		switch args[i] {
+		case "--tier":
+			i++
+			tier = args[i]
+		case "--repo":
+			i++
+			repo = args[i]
+		case "--verif":
+			i++
+			verif = args[i]
+		}
+	}
+	if tier != "thorough" {
+		tier = "quick"
+	}
+	ck, ok := checks.Registry[id]
+	if !ok {
+		fmt.Println("unknown property", id)
+		return 2
+	}
+	r := report.New(id, tier, ck.Level, verif)
+	r.CheckerCmd = "bin/jtverif check " + id + " --tier " + tier
+	r.TrustBase = []string{"go/types and go/ssa (golang.org/x/tools v0.29.0)", "the checker's abstract domain and transfer functions (checker/internal/absint)", load.GoVersion()}
+	opts := load.Options{Repo: repo, Verif: verif}
+	if tier == "thorough" {
+		// additionally cover build-tagged sources
+		opts.Tags = []string{"verif"}
+	}
+	p, err := load.Load(opts)
+	if err != nil {
+		r.Fatal("cannot load /repo: %v", err)
+		return r.Finish()
+	}
+	r.Notes["packages_loaded"] = len(p.Pkgs)
+	c := &checks.Ctx{P: p, R: r, Tier: tier}
+	func() {
+		defer func() {
+			if e := recover(); e != nil {
+				r.Fatal("checker panic: %v\n%s", e, debug.Stack())
+			}
+		}()
+		ck.Run(c)
+	}()
+	return r.Finish()
+}
 
 func main() {
 	if len(os.Args) < 2 {
@@ -26,6 +84,8 @@ func main() {
 		defer pprof.StopCPUProfile()
 	}
 	switch os.Args[1] {
+	case "check":
+		os.Exit(runCheck(os.Args[2:]))
 	case "load":
 		p, err := load.Load(load.Options{})
 		if err != nil {
@@ -110,6 +170,17 @@ func main() {
 		tot := time.Now()
 		for _, fn := range fns {
 			a := absint.New(p)
+			a.Deadline = time.Now().Add(120 * time.Second)
+			if os.Getenv("JTVERIF_OPAQUE") != "" {
+				home := fn.Package()
+				a.Opaque = func(f *ssa.Function) bool {
+					pk := f.Package()
+					for g := f; pk == nil && g != nil; g = g.Parent() {
+						pk = g.Package()
+					}
+					return pk != nil && pk != home
+				}
+			}
 			t1 := time.Now()
 			obls, rets := a.DefaultEntry(fn)
 			fmt.Printf("== %s: %.2fs, %d obligations, %d return states, undecided=%d\n", fn, time.Since(t1).Seconds(), len(obls), len(rets), len(a.Undecided))
